@@ -226,6 +226,20 @@ class DU:
             i = c[1][0][1]
             if i < len(ops):
                 return self.val_operand(ops[i], depth + 1)
+        # ... and through it: `*(tuple.0)` where the field holds a reference or a constant (arguments of an inlined closure call)
+        if d is not None and d[0] == "assign" and d[3]["k"] == "aggregate" and d[3].get("agg") in ("tuple", "adt", "closure") \
+                and len(c[1]) >= 2 and isinstance(c[1][0], tuple) and c[1][0][0] == "f" and not self.has_partial_writes(c[0]) and depth < 12:
+            ops = d[3]["ops"]
+            i = c[1][0][1]
+            rest = c[1][1:]
+            if i < len(ops):
+                inner = self.val_operand(ops[i], depth + 1)
+                if inner[0] in ("const", "call") and all(e == "*" for e in rest):
+                    return inner        # `*(tuple.0)` where the field is a `&str` constant / the `&str` a call returned: the text itself
+                if inner[0] == "ref" and rest and rest[0] == "*":
+                    return self.val_place((inner[1][0], tuple(inner[1][1]) + tuple(rest[1:])), depth + 1)
+                if inner[0] == "place":
+                    return self.val_place((inner[1][0], tuple(inner[1][1]) + tuple(rest)), depth + 1)
         # `.0` of a checked arithmetic pair is the arithmetic result
         if d is not None and d[0] == "assign" and d[3]["k"] == "binop" and d[3]["op"].endswith("WithOverflow") and len(c[1]) == 1 and c[1][0][0] == "f" and c[1][0][1] == 0:
             rv = d[3]
@@ -274,6 +288,8 @@ class DU:
                 inner = self.val_place(c, depth + 1)
                 if inner[0] == "const":
                     return inner     # a reference to (a field of) a constant is that constant for our purposes
+                if inner[0] == "call" and c[1][-1] == "*" and k == "ref" and any(isinstance(e, tuple) and e[0] == "f" for e in c[1]):
+                    return inner     # `&*(tuple.0)` where the field holds the reference a call returned: a reborrow of that reference
             return ("ref", c)
         if k == "binop":
             return ("binop", rv["op"], self.val_operand(rv["ops"][0], depth), self.val_operand(rv["ops"][1], depth))
